@@ -178,9 +178,11 @@ CLAIMS = {
                  "observable content - a swapped, dropped or altered field makes the theorem unprovable), entry_points_agree (TryFrom = FromStr = "
                  "builder.parse on a fresh builder; the translator also checks the three Rust entry points still have that shape), owned_same_text. Tie / "
                  "search: for every accepted generated/mutated value the real library must satisfy v.clone().into_owned() == v, equal observation, equal "
-                 "to_string(), likewise clone(); the three entry points must give identical results on the same text."),
-        "design_ref": "DESIGN.md §7 C17",
-        "note": "clone() is #[derive(Clone)] (structural, trusted). The translator recognises only ownership-only wrappers.",
+                 "to_string(), likewise clone(); the three entry points must give identical results on the same text. When the (purely syntactic) translator "
+                 "cannot read a body any more - e.g. one rewritten to destructure self first - the generated file stays as last regenerated, the evidence says "
+                 "so, and the tie for that run is the differential run alone, with streams a third of the thorough size."),
+        "design_ref": "DESIGN.md §0.7b, §7 C17",
+        "note": "clone() is #[derive(Clone)] (structural, trusted). The translator recognises only ownership-only wrappers; an into_owned body that alters, swaps or drops a field in a shape it CAN read makes a theorem unprovable, in a shape it cannot read it is left to the run (which caught all four seeded into_owned changes by itself).",
     },
     "C05": {
         "technique": "Lean 4 proof that no text entry point of the model can return `panic` (every string, every builder configuration) + malformed-stream differential run gated on panicked-or-not + measured growth of running time",
